@@ -806,6 +806,11 @@ def _guard_builder_form(ctx, name: str) -> Tuple[List[str], List[Tuple[str, str]
                 and not (isinstance(st.value, ast.Constant) and st.value.value == 1):
             t = fo.fold(st.value)
             if t is None:
+                v = st.value
+                if isinstance(v, ast.Call) and isinstance(v.func, ast.Attribute) and unparse(v.func.value) in ("self", ci.qual):
+                    # a shared helper builds this part of the test: both flavours agree iff they call it alike
+                    appended.append((" & ".join(ren(g) for g, pol in guards_of(st, fn, include_exits=False) if pol),
+                                     f"<call {v.func.attr}({', '.join(ren(unparse(a)) for a in v.args)})>"))
                 continue
             txt = "".join(p if isinstance(p, str) else "<" + ren(unparse(p.expr)) + ">" for p in t.parts)
             gs = " & ".join(ren(g) for g, pol in guards_of(st, fn, include_exits=False) if pol)
@@ -824,20 +829,69 @@ def _guard_builder_form(ctx, name: str) -> Tuple[List[str], List[Tuple[str, str]
     return chain, sorted(appended)
 
 
+def _dict_literal(mi, v):
+    """The dict display a value denotes: the display itself, or dict(NAME) / NAME.copy() / {**NAME} of a module-level one."""
+    if isinstance(v, ast.Dict) and v.keys and all(k is not None for k in v.keys):
+        return v
+    name = None
+    if isinstance(v, ast.Call) and unparse(v.func) == "dict" and len(v.args) == 1 and isinstance(v.args[0], ast.Name) and not v.keywords:
+        name = v.args[0].id
+    elif isinstance(v, ast.Call) and isinstance(v.func, ast.Attribute) and v.func.attr == "copy" and isinstance(v.func.value, ast.Name):
+        name = v.func.value.id
+    elif isinstance(v, ast.Dict) and len(v.keys) == 1 and v.keys[0] is None and isinstance(v.values[0], ast.Name):
+        name = v.values[0].id
+    elif isinstance(v, ast.Name):
+        name = v.id
+    if name is not None:
+        for st in mi.tree.body:
+            tg = st.targets[0] if isinstance(st, ast.Assign) and len(st.targets) == 1 else (st.target if isinstance(st, ast.AnnAssign) else None)
+            if isinstance(tg, ast.Name) and tg.id == name and isinstance(getattr(st, "value", None), ast.Dict):
+                return st.value
+    return None
+
+
+def _shape_types(ctx, name: str) -> Set[str]:
+    """Type names for which the builder (or a helper / module-level table it uses) has a shape test."""
+    ci, prog = mw(ctx)
+    fn = prog.method("MatlabWrapper", name)
+    fns = [fn]
+    for c in ast.walk(fn):
+        if isinstance(c, ast.Call) and isinstance(c.func, ast.Attribute) and unparse(c.func.value) in ("self", ci.qual):
+            h = prog.find_method(ci, c.func.attr)
+            if h is not None and "size(" in unparse(h[1]):
+                fns.append(h[1])
+    out: Set[str] = set()
+    for f in fns:
+        if "size(" not in unparse(f):
+            continue
+        out |= {x.value for x in ast.walk(f) if isinstance(x, ast.Constant) and isinstance(x.value, str)}
+        for x in ast.walk(f):
+            if isinstance(x, ast.Name):
+                d = _dict_literal(ci.mod, x)
+                if d is not None:
+                    out |= {k.value for k in d.keys if isinstance(k, ast.Constant)}
+    return out
+
+
 def rule_sibling_guards(ctx, rep: Report, rid="M2"):
     ci, prog = mw(ctx)
     a = _guard_builder_form(ctx, "_wrap_variable_arguments")
     b = _guard_builder_form(ctx, "_wrap_method_check_statement")
     rep.add(rid, "the two MATLAB-side type-check builders resolve the MATLAB class of an argument by the same chain", a[0] == b[0] and len(a[0]) >= 3,
             f"_wrap_variable_arguments: {a[0]} ; _wrap_method_check_statement: {b[0]}", f"{ci.mod.rel}:0")
-    rep.add(rid, "the two builders append the same per-argument tests (isa + Vector/Point2/Point3 shape tests)", a[1] == b[1] and len(a[1]) >= 6,
+    shapes_ok = all(_shape_types(ctx, n_) >= {"Vector", "Point2", "Point3"} for n_ in ("_wrap_variable_arguments", "_wrap_method_check_statement"))
+    rep.add(rid, "the two builders append the same per-argument tests (isa + Vector/Point2/Point3 shape tests)",
+            a[1] == b[1] and len(a[1]) >= 2 and any("isa(" in x[1] for x in a[1]) and shapes_ok,
             f"only in constructor/function flavour: {[x for x in a[1] if x not in b[1]][:3]}; only in method flavour: "
             f"{[x for x in b[1] if x not in a[1]][:3]}", f"{ci.mod.rel}:0")
     init = prog.method("MatlabWrapper", "__init__")
     tables = {}
     for st in walk_no_nested(init):
-        if isinstance(st, ast.Assign) and unparse(st.targets[0]) in ("self.data_type", "self.data_type_param") and isinstance(st.value, ast.Dict):
-            tables[unparse(st.targets[0])] = {k.value for k in st.value.keys if isinstance(k, ast.Constant)}
+        tgt = st.targets[0] if isinstance(st, ast.Assign) else (st.target if isinstance(st, ast.AnnAssign) else None)
+        if tgt is not None and unparse(tgt) in ("self.data_type", "self.data_type_param") and st.value is not None:
+            d = _dict_literal(ci.mod, st.value)
+            if d is not None:
+                tables[unparse(tgt)] = {k.value for k in d.keys if isinstance(k, ast.Constant)}
     ok = "self.data_type" in tables and tables["self.data_type"] <= tables.get("self.data_type_param", set())
     rep.add(rid, "type tables:every key of data_type is a key of data_type_param (the constructor flavour of the fallback is unreachable for them)",
             ok, f"data_type - data_type_param = {sorted(tables.get('self.data_type', set()) - tables.get('self.data_type_param', set()))}",
